@@ -262,9 +262,11 @@ class Check:
                 spec.loader.exec_module(mod)
                 return mod
             changed = []
-            if self.pid in ("C14", "C05", "C18"):
+            if self.pid in ("C14", "C05", "C18", "C04"):
                 t = load("gen_lean_tables")
-                if self.pid == "C14":
+                if self.pid == "C04":
+                    changed += [t.gen_radius()]
+                elif self.pid == "C14":
                     changed += [t.gen_vdist("alpha"), t.gen_vdist("beta")]
                 elif self.pid == "C05":
                     changed += [t.gen_background()]
